@@ -202,5 +202,34 @@ package lfs
 //@   requires @inv cfg != nil
 //@   requires @C09 isobj(dst) ==> fexists(src) && hexsha(fdata(src)) == oidof(dst)
 //@   modifies fresh, key F:github.com/git-lfs/git-lfs/v3/fs.Filesystem.tmpdir, ghost fpath, ghost rrest, ghost wbuf, ghost fexists[q | q == dst || (isauxdir(path_dir(q)) && !old(fexists(q)))], ghost fdata[q | q == dst || (isauxdir(path_dir(q)) && !old(fexists(q)))]
+//@   ensures src == dst ==> result == nil && fexists(dst) == old(fexists(dst)) && fdata(dst) == old(fdata(dst))
 //@   ensures result == nil && src != dst && old(fexists(src)) && (isobj(dst) || old(fexists(dst))) ==> fexists(dst) && fdata(dst) == old(fdata(src))
 //@   ensures result != nil && isobj(dst) ==> fexists(dst) == old(fexists(dst)) && fdata(dst) == old(fdata(dst))
+
+// C09 / C04: objects taken from a reference store ("alternates").  Rely
+// condition (assumed at entry, kept as the loop invariant): a reference store
+// only holds hash-valid objects.  Under it the local object path only ever
+// receives, by link or staged copy, content hashing to the id.
+//@ func LinkOrCopyFromReference
+//@   props C04 C09
+//@   requires @inv cfg != nil && isoid(oid) && oid != fs.EmptyObjectSHA256
+//@   requires @inv forall_v(q, isrefobj(q, oid), isrefobj(q, oid) && fexists(q) ==> hexsha(fdata(q)) == oid)
+//@   modifies fresh, heap, ghost fpath, ghost rrest, ghost wbuf, ghost fexists[q | q == objpath(oid) || (isauxdir(path_dir(q)) && !old(fexists(q)))], ghost fdata[q | q == objpath(oid) || (isauxdir(path_dir(q)) && !old(fexists(q)))]
+//@   loop 1 invariant forall_v(q, isrefobj(q, oid), isrefobj(q, oid) && fexists(q) ==> hexsha(fdata(q)) == oid)
+//@   loop 1 invariant forall_v(q, fexists(q), old(fexists(q)) ==> fexists(q))
+//@   loop 1 invariant fexists(objpath(oid)) ==> hexsha(fdata(objpath(oid))) == oid || (old(fexists(objpath(oid))) && fdata(objpath(oid)) == old(fdata(objpath(oid))))
+//@   ensures fexists(objpath(oid)) ==> hexsha(fdata(objpath(oid))) == oid || (old(fexists(objpath(oid))) && fdata(objpath(oid)) == old(fdata(objpath(oid))))
+//@ func (*github.com/git-lfs/git-lfs/v3/fs.Filesystem).ObjectReferencePaths
+//@   assumed
+//@   props C04 C09
+//@   modifies fresh
+//@   ensures forall_int(i, result[i], 0 <= i && i < len(result) ==> result[i] == "" || isrefobj(result[i], oid))
+//@ func (*github.com/git-lfs/git-lfs/v3/config.Configuration).LFSObjectExists
+//@   assumed
+//@   props C04 C09
+//@   modifies fresh
+//@   ensures result && size != 0 ==> fexists(objpath(oid))
+//@ func github.com/git-lfs/git-lfs/v3/tools.FileExistsOfSize
+//@   props C04 C09
+//@   modifies fresh
+//@   ensures result ==> fexists(path) && len(fdata(path)) == sz
